@@ -20,7 +20,7 @@ ASSUMPTIONS = [
     "threshold None is only used while phi*n_added < 2^32 (documented threshold type is a 32-bit count)",
 ]
 
-VALUES = st.one_of(st.sampled_from([0, 1, 1, 1, 2, 3, 5, 100]), st.integers(0, 12), st.sampled_from([CEIL - 1, CEIL, 2**32 + 5, 2**31, 7]))
+VALUES = st.one_of(st.sampled_from([0, 1, 1, 1, 2, 3, 5, 100]), st.integers(0, 12), st.sampled_from([CEIL - 1, CEIL, 2**32 + 5, 2**31, 7, 255, 256, 257, 65535, 65536, 65537]))
 
 
 def _draw_universe(self, data, cfg):
